@@ -59,21 +59,20 @@ def buf_len(snap):
     return None
 
 
-def run(R, tier):
-    R.configs.append("dflt")
+def int_writers(R, rule="R09.1"):
+    """decimal and #H/#Q/#B writers of all integer types: lexical-core's writer instantiated at the value's type (and
+    radix), on the value, into a stack buffer large enough for every value of the type (lexical-core asserts - panics -
+    on a short buffer), the returned slice pushed after the right prefix"""
     P = D.prog()
     u = P.unit("scpi")
-    # private helpers of the response module (say, one generic function shared by the macro-generated writers) are
-    # analysed in place, with their generic parameters bound from the call
     _resp_helpers = D.inline_inherent(("scpi::parser::response::", "scpi::parser::format::"))
     eng = fdai.Engine(P, u, inline=lambda n, r: _resp_helpers(n, r), models={}, loop_limit=3)
-
     # ---- R09.1 integer writers ---------------------------------------------------------------------
     n_int = 0
     for ity, nd in sorted(DIGITS.items()):
         bs = fmt_impls(u, lambda s, ity=ity: s == ity)
         if len(bs) != 1:
-            R.anchor_lost("R09.1", "ResponseData for %s" % ity)
+            R.anchor_lost(rule, "ResponseData for %s" % ity)
             continue
         b = bs[0]
         n_int += 1
@@ -88,11 +87,11 @@ def run(R, tier):
             good = good and ok
         bufs = [buf_len(p.call("write").args[1]) for p in ps if p.call("write") is not None and len(p.call("write").args) > 1]
         bufs = [x for x in bufs if x is not None]
-        R.check(good and bufs and min(bufs) >= nd, "R09.1", "%s:decimal" % ity, "lexical_core::write::<%s>(*self) into a %s-byte stack buffer (>= %d); the returned slice is pushed" % (ity, bufs, nd), "decimal writer of %s: must format *self with write::<%s> into a buffer of at least %d bytes and push the slice the writer returns (buffers %s): %s" % (ity, ity, nd, bufs, [p.describe() for p in ps]), where=b.span)
+        R.check(good and bufs and min(bufs) >= nd, rule, "%s:decimal" % ity, "lexical_core::write::<%s>(*self) into a %s-byte stack buffer (>= %d); the returned slice is pushed" % (ity, bufs, nd), "decimal writer of %s: must format *self with write::<%s> into a buffer of at least %d bytes and push the slice the writer returns (buffers %s): %s" % (ity, ity, nd, bufs, [p.describe() for p in ps]), where=b.span)
         for wname, (radix, prefix) in WRAP.items():
             bs2 = fmt_impls(u, lambda s, ity=ity, wname=wname: s.endswith("format::%s<%s>" % (wname, ity)))
             if len(bs2) != 1:
-                R.anchor_lost("R09.1", "ResponseData for %s<%s>" % (wname, ity))
+                R.anchor_lost(rule, "ResponseData for %s<%s>" % (wname, ity))
                 continue
             b2 = bs2[0]
             n_int += 1
@@ -111,8 +110,21 @@ def run(R, tier):
             bufs = [buf_len(p.call("write_with_options").args[1]) for p in ps if complete(p) and p.call("write_with_options") is not None and len(p.call("write_with_options").args) > 1]
             bufs = [x for x in bufs if x is not None]
             need = C_bits(ity) + (1 if ity.startswith("i") else 0)
-            R.check(good and bufs and min(bufs) >= need, "R09.1", "%s:%s" % (ity, wname), "prefix %r then write_with_options::<%s, radix %d>(self.0); buffer %s >= %d" % (prefix.decode(), ity, radix, bufs, need), "%s<%s> writer: prefix %r, radix %d, value self.0, returned slice pushed, buffer >= %d bytes required: %s buffers %s" % (wname, ity, prefix.decode(), radix, need, [p.describe() for p in ps], bufs), where=b2.span)
-    R.floor("R09.1", "integer writers", n_int, 40)
+            R.check(good and bufs and min(bufs) >= need, rule, "%s:%s" % (ity, wname), "prefix %r then write_with_options::<%s, radix %d>(self.0); buffer %s >= %d" % (prefix.decode(), ity, radix, bufs, need), "%s<%s> writer: prefix %r, radix %d, value self.0, returned slice pushed, buffer >= %d bytes required: %s buffers %s" % (wname, ity, prefix.decode(), radix, need, [p.describe() for p in ps], bufs), where=b2.span)
+    R.floor(rule, "integer writers", n_int, 40)
+
+
+def run(R, tier):
+    R.configs.append("dflt")
+    P = D.prog()
+    u = P.unit("scpi")
+    # private helpers of the response module (say, one generic function shared by the macro-generated writers) are
+    # analysed in place, with their generic parameters bound from the call
+    _resp_helpers = D.inline_inherent(("scpi::parser::response::", "scpi::parser::format::"))
+    eng = fdai.Engine(P, u, inline=lambda n, r: _resp_helpers(n, r), models={}, loop_limit=3)
+
+    # ---- R09.1 integer writers (int_writers above) -----------------------------------------------------------------
+    int_writers(R)
     # prefix letter <-> radix agrees with the lexer (writer/reader agreement): the lexer's element table reads `10` after
     # each letter as the radix the writers pair with that letter (R09.1), and refuses other letters
     from . import lexer as LX
